@@ -6,6 +6,7 @@ shapes x epochs x versions x releases x every arch in the library's table x dire
 import itertools
 
 from mc.models import nvra
+from mc.core.util import exc_name
 
 ID = "C13"
 LEVEL = "exploration"
@@ -35,7 +36,7 @@ def _call(fn, *a):
     try:
         return ["ok", fn(*a)]
     except Exception as exc:                                       # noqa
-        return ["exc", type(exc).__name__]
+        return ["exc", exc_name(exc)]
 
 
 def eval_parse(text):
